@@ -101,6 +101,22 @@ def _literal_twin(rng, prob):
     return q
 
 
+def _operator_twin(rng, prob):
+    import re
+
+    a = prob["assignment"]
+    lhs, rhs = a.split("=", 1)
+    ops = [m for m in re.finditer(r" ([*+]) ", rhs)]
+    if not ops:
+        return None
+    m = rng.choice(ops)
+    new = "+" if m.group(1) == "*" else "*"
+    q = copy.deepcopy(prob)
+    q["assignment"] = lhs + "=" + rhs[:m.start(1)] + new + rhs[m.end(1):]
+    q.pop("expr", None)
+    return q
+
+
 def gen_plan(seed, cfg):
     from .session import _gen_entries
 
@@ -126,6 +142,12 @@ def gen_plan(seed, cfg):
         twin = _literal_twin(rng, prob)
         if twin is not None and rng.random() < 0.6:
             pool.append(twin)
+        # the same operands, tensor names and formats with ONE operator exchanged (* <-> +): equal sets
+        # of tensor mentions met in another order by the iteration-graph code (added after seeded
+        # changes D-C15-1/2: caches keyed by order-insensitive sets replay the first order they saw)
+        otw = _operator_twin(rng, prob)
+        if otw is not None and rng.random() < 0.5:
+            pool.append(otw)
         # near-duplicates that must NOT share a cached kernel
         r = rng.random()
         if r < 0.3:
